@@ -317,10 +317,12 @@ class Run(object):
                 self.raised_fault += 1
             self.log.add("raised", type(exc).__name__)
             if target is not None:
-                if not fired and self.slots[target] is not None:
-                    # a documented in-place call that raised although nothing was injected (an argument check, a
-                    # precondition): the property says nothing about the receiver's VALUE then, but a live tensor train
-                    # must still be a tensor train -- order, dimensions, ranks and cores mutually consistent
+                if self.slots[target] is not None:
+                    # a documented in-place call that raised (an argument check, a violated precondition, an injected
+                    # kernel or stdout failure): the property says nothing about the receiver's VALUE then, but a live
+                    # tensor train must still be a tensor train -- order, dimensions, ranks and cores mutually
+                    # consistent.  (On the real tree every sweep updates rank entry and cores only after its SVD
+                    # succeeded and prints progress only between complete steps, so this is silent there.)
                     p = M.structural_problem(self.slots[target].tt)
                     if p is not None:
                         self._viol("inconsistent-target-after-raise(%s)" % api, "O2", {"problem": p, "exception": repr(exc)[:200]})
@@ -1501,6 +1503,8 @@ def _dd_transform():
             a["phi"] = [r.choice(sorted(_SCALAR_FUNS)) for _ in range(r.randint(1, 3))]
             a["add_one"] = r.random() < 0.5
             a["threshold"] = r.choice((0.0, 1e-10, 1e-3))
+            if which.startswith("mandy") and r.random() < 0.15:
+                a["y_rows_off"] = True
             if which in ("coordinate_major", "function_major") and r.random() < 0.2:
                 a["single_core"] = 0
         return {"op": "dd_transform", "in": {}, "dest": ctx.dest(1), "args": a}
@@ -1521,7 +1525,7 @@ def _dd_transform():
             return tdt.coordinate_major(x, phi, single_core=a.get("single_core"))
         if w == "function_major":
             return tdt.function_major(x, phi, add_one=a["add_one"], single_core=a.get("single_core"))
-        y = g.uniform(-1, 1, size=(a["d"], a["m"]))
+        y = g.uniform(-1, 1, size=(a["d"] + (1 if a.get("y_rows_off") else 0), a["m"]))   # y_rows_off: inadmissible y (must raise)
         if w == "mandy_cm":
             return reg.mandy_cm(x, y, phi, threshold=a["threshold"])
         return reg.mandy_fm(x, y, phi, threshold=a["threshold"], add_one=a["add_one"])
